@@ -81,7 +81,9 @@ def run(ctx):
                 'same runs; real numerics: 8 signal families x {sd,rilling,fixed} x step x {splrep,pchip,mono_pchip} x pad 1..4, no cap, no '
                 'energy threshold: completeness / non-oscillatory residual oracle.  non-trivial = at least two components and the sift ended '
                 'of its own accord')
-    ctx.proof()
+    # the translation tie: the control skeletons of get_next_imf / sift / mask_sift are regenerated from the source and the
+    # refinement theorems to the models used by this property's theorems are re-checked
+    ctx.proof(extra=['props/Prop_Tie_Sift.v'])
     n = 300 if ctx.quick() else 10000
     cases = []
     for i in range(n):
